@@ -74,6 +74,9 @@ pub struct Layout {
     pub objsense_gap: u8,
     /// which texts the comment lines carry
     pub comment_style: u8,
+    /// the RHS / RANGES / BOUNDS vectors are named "*RHS" / "*RNG" / "*BND": a `*` starts a comment only in column one,
+    /// and data lines are indented
+    pub star_set_names: bool,
 }
 
 #[derive(Clone, Debug, PartialEq)]
@@ -167,6 +170,10 @@ fn gen_name(t: &mut Tape, prefix: &str, i: usize) -> String {
     if i == 0 && t.p(16) {
         return (*t.pick(&["MARKER", "RHS", "BOUNDS", "ENDATA", "RANGES", "MARKER"])).to_string();
     }
+    // a name starting with `*` (a comment only when the `*` stands in column one; data lines are indented)
+    if t.p(10) {
+        return format!("*{prefix}{i}");
+    }
     match t.choice(5) {
         0 => format!("{prefix}{i}"),
         1 => format!("{prefix}_{i}"),
@@ -220,6 +227,9 @@ pub fn gen_lp(t: &mut Tape, ctx: &mut Ctx) -> Lp {
         } else {
             {
                 let nm = gen_name(t, "r", i);
+                if nm.starts_with('*') {
+                    ctx.label("name-starting-with-a-star");
+                }
                 if ["MARKER", "RHS", "BOUNDS", "ENDATA", "RANGES"].contains(&nm.as_str()) {
                     ctx.label("row-named-like-a-keyword");
                     if nm == "MARKER" {
@@ -307,6 +317,9 @@ pub fn gen_lp(t: &mut Tape, ctx: &mut Ctx) -> Lp {
             ctx.label("column-with-only-zero-entries");
         }
         let cname = gen_name(t, "x", i);
+        if cname.starts_with('*') {
+            ctx.label("name-starting-with-a-star");
+        }
         if ["MARKER", "RHS", "BOUNDS", "ENDATA", "RANGES"].contains(&cname.as_str()) {
             ctx.label("column-named-like-a-keyword");
         }
@@ -362,7 +375,11 @@ pub fn gen_layout(t: &mut Tape, lp: &Lp, ctx: &mut Ctx) -> Layout {
         bound_after_ranges: true,
         objsense_gap: t.choice(3) as u8,
         comment_style: t.choice(4) as u8,
+        star_set_names: t.p(24),
     };
+    if l.star_set_names {
+        ctx.label("vector-names-starting-with-a-star");
+    }
     if l.comments && l.comment_style != 0 {
         ctx.label("comments-that-look-like-content");
     }
@@ -395,6 +412,7 @@ pub fn write_mps(lp: &Lp, l: &Layout, inject: &Inject) -> String {
     let mut out = String::new();
     let sep = if l.tabs { "\t" } else { "  " };
     let lead = " ".repeat(l.lead);
+    let (rhs_set, rng_set, bnd_set) = if l.star_set_names { ("*RHS", "*RNG", "*BND") } else { ("RHS1", "RNG1", "BND1") };
     let line = |out: &mut String, fields: &[&str]| {
         out.push_str(&lead);
         out.push_str(&fields.join(sep));
@@ -515,10 +533,10 @@ pub fn write_mps(lp: &Lp, l: &Layout, inject: &Inject) -> String {
         let mut i = 0;
         while i < ents.len() {
             if l.five_field && i + 1 < ents.len() {
-                line(&mut out, &["RHS1", &ents[i].0, &ents[i].1, &ents[i + 1].0, &ents[i + 1].1]);
+                line(&mut out, &[rhs_set, &ents[i].0, &ents[i].1, &ents[i + 1].0, &ents[i + 1].1]);
                 i += 2;
             } else {
-                line(&mut out, &["RHS1", &ents[i].0, &ents[i].1]);
+                line(&mut out, &[rhs_set, &ents[i].0, &ents[i].1]);
                 i += 1;
             }
         }
@@ -541,10 +559,10 @@ pub fn write_mps(lp: &Lp, l: &Layout, inject: &Inject) -> String {
         let mut i = 0;
         while i < ents.len() {
             if l.five_field && i + 1 < ents.len() {
-                line(&mut out, &["RNG1", &ents[i].0, &ents[i].1, &ents[i + 1].0, &ents[i + 1].1]);
+                line(&mut out, &[rng_set, &ents[i].0, &ents[i].1, &ents[i + 1].0, &ents[i + 1].1]);
                 i += 2;
             } else {
-                line(&mut out, &["RNG1", &ents[i].0, &ents[i].1]);
+                line(&mut out, &[rng_set, &ents[i].0, &ents[i].1]);
                 i += 1;
             }
         }
@@ -582,12 +600,12 @@ pub fn write_mps(lp: &Lp, l: &Layout, inject: &Inject) -> String {
         }
         for (kw, val) in lines {
             match val {
-                Some(v) => line(&mut out, &[&kw, "BND1", &c.name, &v]),
+                Some(v) => line(&mut out, &[&kw, bnd_set, &c.name, &v]),
                 None => {
                     if ci % 2 == 0 {
-                        line(&mut out, &[&kw, "BND1", &c.name])
+                        line(&mut out, &[&kw, bnd_set, &c.name])
                     } else {
-                        line(&mut out, &[&kw, "BND1", &c.name, "0"])
+                        line(&mut out, &[&kw, bnd_set, &c.name, "0"])
                     }
                 }
             }
